@@ -20,9 +20,10 @@ struct Mv {
 	friend bool operator!=(Mv const& a, Mv const& b) { return a.v != b.v; }
 };
 
-enum Form { M_COPY, M_RVALUE_VIEW, M_RVALUE_BOTH, M_ELEMENT_MOVED, M_ELEMENTS_OF_MOVED, M_COPY_FROM_MOVED_ITERATORS, M_ARRAY_FROM_MOVED, NFORMS };
+enum Form { M_COPY, M_RVALUE_VIEW, M_RVALUE_BOTH, M_ELEMENT_MOVED, M_ELEMENTS_OF_MOVED, M_COPY_FROM_MOVED_ITERATORS, M_ARRAY_FROM_MOVED, M_COPY_BACKWARD_FROM_MOVED, M_REVERSE_ITERATORS_OF_MOVED, NFORMS };
 static char const* const fname[] = {"dst=src", "dst=<rvalue view>", "std::move(dst)=<rvalue view>", "dst=src.element_moved()", "dst.elements()=src.element_moved().elements()",
-	"std::copy(src.element_moved().begin(),end,dst.begin())", "array(src.element_moved())"};
+	"std::copy(src.element_moved().begin(),end,dst.begin())", "array(src.element_moved())",
+	"std::copy_backward(src.element_moved().begin(),end,dst.end())", "std::copy(reverse iterators of src.element_moved(), reverse iterators of dst)"};
 static bool moves(int f) { return f >= M_ELEMENT_MOVED; }
 
 struct Saved { Hist h; MView m; };
@@ -64,6 +65,8 @@ void run_pairs(std::vector<idx> const& sizes, Config const& cfg) {
 						case M_ELEMENT_MOVED: dv = sv.element_moved(); break;
 						case M_ELEMENTS_OF_MOVED: dv.elements() = sv.element_moved().elements(); break;
 						case M_COPY_FROM_MOVED_ITERATORS: { auto&& mv = sv.element_moved(); std::copy(mv.begin(), mv.end(), dv.begin()); break; }
+						case M_COPY_BACKWARD_FROM_MOVED: { auto&& mv = sv.element_moved(); std::copy_backward(mv.begin(), mv.end(), dv.end()); break; }
+						case M_REVERSE_ITERATORS_OF_MOVED: { auto&& mv = sv.element_moved(); std::copy(std::make_reverse_iterator(mv.end()), std::make_reverse_iterator(mv.begin()), std::make_reverse_iterator(dv.end())); break; }
 						case M_ARRAY_FROM_MOVED: { multi::array<Mv, rank_of<DV>> c(sv.element_moved()); for(idx i = 0; i < c.num_elements(); ++i) { arr_vals.push_back(c.data_elements()[i].v); } break; }
 						default: break;
 					}
@@ -82,14 +85,14 @@ void run_pairs(std::vector<idx> const& sizes, Config const& cfg) {
 			for(idx i = -4; i < N + 4 && why.empty(); ++i) {
 				int got = b2[static_cast<std::size_t>(i + 4)].v; int orig = static_cast<int>(2000 + i);
 				if(!ins.count(i)) { if(got != orig) { why = "source-storage-outside-the-source-view-modified"; } }
-				else if(f == M_COPY_FROM_MOVED_ITERATORS && d.m.rank() >= 2) { if(got != -1 && got != orig) { why = "viewed-source-element-corrupted"; } }   // proxy rows of a moved view: moving is permitted, copying is safe; either is accepted
+				else if((f == M_COPY_FROM_MOVED_ITERATORS || f == M_COPY_BACKWARD_FROM_MOVED || f == M_REVERSE_ITERATORS_OF_MOVED) && d.m.rank() >= 2) { if(got != -1 && got != orig) { why = "viewed-source-element-corrupted"; } }   // proxy rows of a moved view: moving is permitted, copying is safe; either is accepted
 				else if(moves(f)) { if(got != -1) { why = "viewed-source-element-not-moved-from"; } }
 				else if(got != orig) { why = "source-elements-modified-by-a-view-assignment"; }
 			}
 			if(!why.empty()) {
 				mc::R.violation("D" + std::to_string(d.m.rank()) + "|" + fname[f] + "|" + why, mc::J().s("harness", "movemc").s("replay", rp).s("dst_trace", hist_str(d.h)).s("src_trace", hist_str(s.h)).s("form", fname[f]).s("oracle", why).str());
 			}
-			if(mc::R.samples.size() < 3 && od.size() >= 4 && f == M_ELEMENT_MOVED && (g_pairs % 53) == 0) { mc::R.sample(mc::J().s("root", "array_ref<Mv," + std::to_string(D) + ">{" + px + "}").s("dst_trace", hist_str(d.h)).s("src_trace", hist_str(s.h)).s("forms", "all 7").str()); }
+			if(mc::R.samples.size() < 3 && od.size() >= 4 && f == M_ELEMENT_MOVED && (g_pairs % 53) == 0) { mc::R.sample(mc::J().s("root", "array_ref<Mv," + std::to_string(D) + ">{" + px + "}").s("dst_trace", hist_str(d.h)).s("src_trace", hist_str(s.h)).s("forms", "all 9").str()); }
 		}
 	} } }
 	mc::R.note("movemc root {" + px + "}: states=" + std::to_string(saved.size()) + " depth=" + std::to_string(cfg.maxdepth));
